@@ -69,7 +69,7 @@ def main(run):
             disperse = rep % 2 == 1 and not degenerate
             dpars = dict(pars)
             if disperse:
-                pdn = list(info.parameters.pd_1d)
+                pdn = c01.dispersible(info.parameters, "1d")
                 # meshes on both sides of the 100-point chunk of the DLL driver: 5..81 points, 101, 151, 12 x 12
                 big_ok = thorough or name in QUICK          # models with inner quadratures are slow on 100+ point meshes
                 shape = ("one-big" if big_ok else "small") if rep == 1 else rng.choice(["small", "small2"] + (["one-big", "two-big"] if big_ok else []))
